@@ -89,6 +89,17 @@ pub fn set_drop_fault(f: Option<fn(u64, u8) -> bool>) {
     *DROP_FAULT.lock().unwrap_or_else(|e| e.into_inner()) = f;
 }
 
+/// Description of an object for a report. In real-allocation mode the memory may be released by
+/// another thread at any moment (we are reporting a broken invariant), so it is not looked at and
+/// no reference to it is held across the call.
+fn describe_ptr(p: *const Obj) -> String {
+    if alloc_mode() == AllocMode::Real {
+        format!("object at {:p} (real allocation mode)", p)
+    } else {
+        unsafe { &*p }.describe()
+    }
+}
+
 impl Obj {
     fn describe(&self) -> String {
         format!(
@@ -287,7 +298,7 @@ impl<const K: u8> Clone for Tp<K> {
         let prev = o.strong.fetch_add(1, Relaxed);
         INCS.fetch_add(1, Relaxed);
         if prev == 0 {
-            report("C01", "resurrect", format!("count incremented from 0: {}", o.describe()));
+            report("C01", "resurrect", format!("count incremented from 0: {}", describe_ptr(self.p.as_ptr())));
         }
         Tp { p: self.p }
     }
@@ -302,7 +313,7 @@ impl<const K: u8> Drop for Tp<K> {
         DECS.fetch_add(1, Relaxed);
         let prev = o.strong.fetch_sub(1, AcqRel);
         if prev == 0 {
-            report("C02", "count-underflow", format!("count decremented below 0: {}", o.describe()));
+            report("C02", "count-underflow", format!("count decremented below 0: {}", describe_ptr(self.p.as_ptr())));
         } else if prev == 1 {
             destroy(self.p);
         }
